@@ -1,6 +1,7 @@
 """Family F1: end-to-end semantic checks (generated module + call script, interpreter vs. compiled w2c2 output)."""
 import collections
 import hashlib
+import re
 import time
 
 from . import wasm, interp, cexec, e2e, gen, hazard, pools
@@ -38,6 +39,19 @@ CC = {
 
 def hx(x):
     return hashlib.sha256(repr(x).encode()).hexdigest()[:16]
+
+
+def toolchain_cflags(cc, cflags, model):
+    """Toolchain defect (not w2c2): clang 14 constant-folds (float) of some subnormal double constants to 0x00000001 instead of 0
+    (APFloat conversion of denormals; `float f(void){double d=1.4920283300477088e-315; return (float)d;}` at -O1 and above).
+    Cases whose model execution demotes a subnormal f64 are therefore compiled with clang -O0 instead (counted as excluded);
+    gcc cells and the flat mode (operands arrive at run time, nothing to fold) keep covering the operation at all levels."""
+    if cc == 'clang' and any('f32.demote_f64:subnormal' in hz for hz in model.call_hz):
+        new = ['-O0' if re.match(r'-O[123s]$', f) else f for f in cflags]
+        if new != list(cflags):
+            gen.EXCLUDED['clang_fold_demote_subnormal'] += 1
+            return new
+    return cflags
 
 
 # ---------------------------------------------------------------------------------------------
@@ -203,6 +217,7 @@ def run_case(m, script, ccname, w2c2_options=(), wasm_bytes=None, knobs=None, ni
         byteorder = 'big' if ccname.endswith('-be') else 'little'
     model = e2e.ModelRun(m, script, ninst=ninst, byteorder=byteorder)
     cc, cflags = CC[ccname]
+    cflags = toolchain_cflags(cc, cflags, model)
     b = e2e.Built(m, wasm_bytes=wasm_bytes, cc=cc, cflags=cflags, w2c2_options=w2c2_options, knobs=knobs, ninst=ninst,
                   w2c2_variant=w2c2_variant)
     b.w2c2_options = tuple(w2c2_options)
@@ -386,6 +401,8 @@ def case_task(wid, seed, params):
     res['extra'] = dict(res['extra'])
     res['excluded'] = gen.EXCLUDED['snan_immediate']
     gen.EXCLUDED['snan_immediate'] = 0
+    res['extra']['toolchain_excluded_clang_fold_demote_subnormal'] = gen.EXCLUDED['clang_fold_demote_subnormal']
+    gen.EXCLUDED['clang_fold_demote_subnormal'] = 0
     return res
 
 
